@@ -10,6 +10,12 @@ package dns
 //@ func (*resultBuilder).parseMsg
 //@   requires !isnil(r)
 //@   ensures isnil(result1) ==> result0.ID == 4 || result0.ID == 6
+// A query counts as answered only by a response that was not cut short on UDP (a truncated UDP response leaves
+// it open, so that it is retried over TCP); a rejected message changes nothing.
+//@   ensures isnil(result1) && result0.Truncated && isUDP ==> r.v4done == old(r.v4done) && r.v6done == old(r.v6done)
+//@   ensures isnil(result1) && !(result0.Truncated && isUDP) && result0.ID == 4 ==> r.v4done && r.v6done == old(r.v6done)
+//@   ensures isnil(result1) && !(result0.Truncated && isUDP) && result0.ID == 6 ==> r.v6done && r.v4done == old(r.v4done)
+//@   ensures !isnil(result1) ==> r.v4done == old(r.v4done) && r.v6done == old(r.v6done)
 //@   callsite AResource: !r.expiresAt.After(ttl)
 //@   callsite AResource: iter(r.expiresAt.IsZero()) || !r.expiresAt.After(iter(r.expiresAt))
 //@   callsite AAAAResource: !r.expiresAt.After(ttl)
